@@ -508,7 +508,172 @@ class _X4Normaliser(ast.NodeTransformer):
         return node
 
 
-def x4_normalise(fn):
+# N5: inlining of small private helpers.  Extracting a block into a private helper (or inlining one) is the commonest harmless
+# refactor; the proofs know the functions by name, so a helper *they do not know* is spliced back into its caller:
+#   `x = _h(a, b)` / `x[k] = _h(a, b)` / `return _h(a, b)` / `_h(a, b)` (a statement whose whole right-hand side is the call)
+# becomes: the parameters bound to the arguments in order (an argument that is a plain name / constant is substituted when the
+# helper never rebinds that parameter), the helper's body with its locals renamed apart, its final `return e` turned into
+# the original statement with `e` in place of the call.  Conditions: `_h` is a module-level function of the same module whose
+# name starts with `_`, is not one of X4_KNOWN_HELPERS (functions with an equivalence theorem of their own) nor SELECTED, has no
+# decorator, no `*args`/`**kwargs`/keyword-only parameters, does not call itself, and its only `return` is its last top-level
+# statement (so control flow needs no encoding); no `yield`, `global`, `nonlocal`, nested `def`/`class`/`lambda`.
+X4_KNOWN_HELPERS = {
+    "_parse_letter_version", "_is_not_suffix", "_version_join", "_pad_version", "_cmpkey", "_version_nodot",
+    "_py_interpreter_range", "_abi3_applies", "_is_threaded_cpython", "_get_config_var", "_cpython_abis", "_version_split",
+    "_coerce_version", "_normalize_string", "_generic_abi", "_mac_arch", "_mac_binary_formats", "_parse_glibc_version",
+    "_glibc_version_string", "_normalize_extra_values", "_format_marker", "_eval_op", "_normalize", "_get_env",
+    "_evaluate_markers", "_repair_python_full_version", "_parse_marker_op", "_parse_marker_var", "_parse_marker_item",
+    "_parse_marker_atom", "_parse_marker", "_parse_full_marker", "_parse_version_many", "_parse_specifier",
+    "_parse_extras_list", "_parse_extras", "_parse_requirement_marker", "_parse_requirement_details", "_parse_requirement",
+    "_parse_keywords", "_parse_project_urls", "_parse_local_version", "_parse_project_urls", "_get_payload",
+}
+
+
+def _inlinable_helper(name, globs, caller_name):
+    """the FunctionDef of helper `name` when it may be spliced into a caller, else None"""
+    f = globs.get(name)
+    if not name.startswith("_") or name.startswith("__") or name in X4_KNOWN_HELPERS or name == caller_name \
+            or not inspect.isfunction(f) or f.__globals__ is not globs or f.__name__ != name:
+        return None
+    if any(name == sel[2] for sel in SELECTED):
+        return None
+    try:
+        node = ast.parse(textwrap.dedent(inspect.getsource(f))).body[0]
+    except (OSError, SyntaxError, TypeError):
+        return None
+    if not isinstance(node, ast.FunctionDef) or node.decorator_list:
+        return None
+    a = node.args
+    if a.vararg or a.kwarg or a.kwonlyargs or a.posonlyargs:
+        return None
+    body = list(node.body)
+    if body and isinstance(body[0], ast.Expr) and isinstance(body[0].value, ast.Constant) and isinstance(body[0].value.value, str):
+        body = body[1:]
+    if not body or not isinstance(body[-1], ast.Return) or body[-1].value is None:
+        return None
+    for n in ast.walk(ast.Module(body=body[:-1], type_ignores=[])):
+        if isinstance(n, (ast.Return, ast.Yield, ast.YieldFrom, ast.Global, ast.Nonlocal, ast.FunctionDef, ast.ClassDef,
+                          ast.Lambda, ast.AsyncFunctionDef, ast.Await, ast.Try, ast.With)):
+            return None
+    for n in ast.walk(node):
+        if isinstance(n, ast.Call) and isinstance(n.func, ast.Name) and n.func.id == name:
+            return None
+        if isinstance(n, (ast.Lambda,)) or (isinstance(n, (ast.Yield, ast.YieldFrom))):
+            return None
+    node.body = body
+    return node
+
+
+class _Renamer(ast.NodeTransformer):
+    def __init__(self, mapping):
+        self.mapping = mapping          # name -> replacement expression (ast) or new name (str)
+
+    def visit_Name(self, node):
+        r = self.mapping.get(node.id)
+        if r is None:
+            return node
+        if isinstance(r, str):
+            return ast.copy_location(ast.Name(id=r, ctx=node.ctx), node)
+        import copy
+        return ast.copy_location(copy.deepcopy(r), node)
+
+
+def _inline_helpers(fn, globs, counter=None, depth=0):
+    """splice unknown private helpers into the statements of `fn` (see N5)"""
+    import copy
+    counter = counter if counter is not None else [0]
+
+    def call_of(st):
+        """(call, rebuild) when the statement's whole right-hand side is a call of a plain name"""
+        if isinstance(st, ast.Assign) and isinstance(st.value, ast.Call):
+            return st.value, lambda e: ast.copy_location(ast.Assign(targets=st.targets, value=e, type_comment=None), st)
+        if isinstance(st, ast.AnnAssign) and isinstance(st.value, ast.Call):
+            return st.value, lambda e: ast.copy_location(ast.AnnAssign(target=st.target, annotation=st.annotation, value=e, simple=st.simple), st)
+        if isinstance(st, ast.Return) and isinstance(st.value, ast.Call):
+            return st.value, lambda e: ast.copy_location(ast.Return(value=e), st)
+        if isinstance(st, ast.Expr) and isinstance(st.value, ast.Call):
+            return st.value, lambda e: ast.copy_location(ast.Expr(value=e), st)
+        return None, None
+
+    caller_locals = {n for s in _walk_scope(fn.body) for n in _targets_of(s)} | {a.arg for a in fn.args.args + fn.args.kwonlyargs}
+
+    def splice(st):
+        call, rebuild = call_of(st)
+        if call is None or not isinstance(call.func, ast.Name) or call.func.id in caller_locals or depth > 2:
+            return None
+        if any(isinstance(a, ast.Starred) for a in call.args) or any(k.arg is None for k in call.keywords):
+            return None
+        h = _inlinable_helper(call.func.id, globs, fn.name)
+        if h is None:
+            return None
+        params = [a.arg for a in h.args.args]
+        defaults = dict(zip(params[len(params) - len(h.args.defaults):], h.args.defaults))
+        bound = {}
+        if len(call.args) > len(params):
+            return None
+        for p_, a in zip(params, call.args):
+            bound[p_] = a
+        for k in call.keywords:
+            if k.arg not in params or k.arg in bound:
+                return None
+            bound[k.arg] = k.value
+        # keyword arguments are evaluated after the positional ones, in source order: keep that order
+        order = [p_ for p_, _ in zip(params, call.args)] + [k.arg for k in call.keywords]
+        for p_ in params:
+            if p_ not in bound:
+                if p_ not in defaults or not isinstance(defaults[p_], ast.Constant):
+                    return None
+                bound[p_] = defaults[p_]
+                order.append(p_)
+        counter[0] += 1
+        tag = f"__h{counter[0]}_"
+        assigned = {n for s in _walk_scope(h.body) for n in _targets_of(s)}
+        loopvars = {t.id for n in ast.walk(h) if isinstance(n, (ast.For, ast.comprehension)) for t in ast.walk(n.target) if isinstance(t, ast.Name)}
+        mapping = {}
+        pre = []
+        for p_ in order:
+            a = bound[p_]
+            simple = isinstance(a, ast.Constant) or (isinstance(a, ast.Name))
+            if simple and p_ not in assigned and p_ not in loopvars:
+                mapping[p_] = a
+            else:
+                mapping[p_] = tag + p_
+                pre.append(ast.copy_location(ast.Assign(targets=[ast.Name(id=tag + p_, ctx=ast.Store())], value=a, type_comment=None), st))
+        for v in (assigned | loopvars) - set(params):
+            mapping[v] = tag + v
+        body = [_Renamer(mapping).visit(copy.deepcopy(s)) for s in h.body]
+        ret = body.pop()
+        out = pre + body + [rebuild(ret.value)]
+        for s in out:
+            for n in ast.walk(s):
+                ast.copy_location(n, st) if not hasattr(n, "lineno") else None
+                n.lineno, n.end_lineno = st.lineno, getattr(st, "end_lineno", st.lineno)
+                n.col_offset, n.end_col_offset = getattr(st, "col_offset", 0), getattr(st, "end_col_offset", 0)
+        return out
+
+    def walk_block(stmts):
+        out = []
+        for st in stmts:
+            for field in ("body", "orelse", "finalbody"):
+                if hasattr(st, field) and isinstance(getattr(st, field), list) and not isinstance(st, (ast.FunctionDef, ast.ClassDef)):
+                    setattr(st, field, walk_block(getattr(st, field)))
+            if isinstance(st, ast.Try):
+                for hd in st.handlers:
+                    hd.body = walk_block(hd.body)
+            rep = splice(st)
+            out.extend(rep if rep is not None else [st])
+        return out
+
+    before = counter[0]
+    fn.body = walk_block(fn.body)
+    if counter[0] != before and depth < 2:
+        _inline_helpers(fn, globs, counter, depth + 1)          # helpers of helpers
+    return fn
+
+
+def x4_normalise(fn, globs=None):
+    if globs is not None:
+        fn = _inline_helpers(fn, globs)
     fn = _X4Normaliser(fn).visit(fn)
     ast.fix_missing_locations(fn)
     return fn
@@ -522,7 +687,7 @@ class Fn:
         self.node = tree.body[0]
         if not isinstance(self.node, ast.FunctionDef):
             raise Unsupported("not a plain function definition")
-        self.node = x4_normalise(self.node)          # x4: behaviour-preserving spellings -> one canonical AST
+        self.node = x4_normalise(self.node, pyfunc.__globals__)          # x4: behaviour-preserving spellings -> one canonical AST
         self.globals = pyfunc.__globals__
         self.tmp = 0
         self.lines = []
